@@ -1406,7 +1406,8 @@ export class AllOfRuntype extends BaseRuntype {
       if (typeof parsed !== "object") {
         throw new Error("INTERNAL ERROR: AllOfParser: Expected object");
       }
-      acc = { ...acc, ...parsed };
+      // members may declare different parts of the same nested property: merge them, do not replace
+      acc = deepmerge(acc, parsed) as object;
     }
     return acc;
   }
